@@ -109,14 +109,21 @@ func GenProgram(r *core.Rand, o SemOpts) *Program {
 	if o.Dirs {
 		dirs = append(dirs, "idl/"+g.name("d"), "idl/shared", "idl/shared/"+g.name("sub"))
 	}
+	lastClash := ""
 	for i := 0; i < nf; i++ {
 		d := dirs[r.Intn(len(dirs))]
 		base := g.name("m")
 		if o.PkgNameClash && r.Chance(1, 3) {
 			base = []string{"fmt", "wire", "stream", "errors", "strings", "bytes", "base64", "math", "strconv", "zapcore", "multierr", "thriftreflect", "ptr", "json", "binary", "v2", "v3", "v2", "v3"}[r.Intn(19)]
+			if lastClash != "" && r.Chance(1, 2) {
+				// "strings" and "strings2": the second alias candidate of one is the name of the other
+				base = lastClash + "2"
+			}
+			lastClash = base
 			for _, f := range g.p.Files {
 				if f.ModuleName() == base {
 					base = g.name("m")
+					lastClash = ""
 				}
 			}
 		}
@@ -138,18 +145,26 @@ func GenProgram(r *core.Rand, o SemOpts) *Program {
 		}
 		g.p.Files = append(g.p.Files, &File{Path: d + "/" + base + ".thrift"})
 	}
-	// versioned siblings: <dir>/v2.thrift and <dir>/v3.thrift, both included by the root
+	// sibling files whose import aliases compete: <dir>/v2.thrift and
+	// <dir>/v3.thrift, or <dir>/strings.thrift and <dir>/strings2.thrift (the
+	// second alias candidate of one is the name of the other), both included
+	// by the root
 	siblings := false
-	if o.PkgNameClash && nf >= 3 && !o.ChainMode && r.Chance(1, 4) {
+	if o.PkgNameClash && nf >= 3 && !o.ChainMode && r.Chance(1, 3) {
 		d := path.Dir(g.p.Files[1].Path)
+		n1, n2 := "v2", "v3"
+		if r.Bool() {
+			n1 = []string{"fmt", "errors", "strings", "bytes", "base64", "math", "strconv", "wire", "stream", "zapcore", "multierr", "ptr", "thriftreflect"}[r.Intn(13)]
+			n2 = n1 + "2"
+		}
 		free := true
 		for k, f := range g.p.Files {
-			if k != 1 && k != 2 && (f.Path == d+"/v2.thrift" || f.Path == d+"/v3.thrift") {
+			if k != 1 && k != 2 && (f.ModuleName() == n1 || f.ModuleName() == n2) {
 				free = false
 			}
 		}
 		if free {
-			g.p.Files[1].Path, g.p.Files[2].Path = d+"/v2.thrift", d+"/v3.thrift"
+			g.p.Files[1].Path, g.p.Files[2].Path = d+"/"+n1+".thrift", d+"/"+n2+".thrift"
 			siblings = g.include(g.p.Files[0], g.p.Files[1]) && g.include(g.p.Files[0], g.p.Files[2])
 		}
 	}
